@@ -208,6 +208,44 @@ class ExactSums(O.Monitor):
         episodes.audit(Q, option_of, rep, self.activity, exact=True)
 
 
+class RecordDates(O.Monitor):
+    """Exact mode keeps distinct dates distinct: a customer leaves at its own end of service (or later, when blocked), never at a
+    neighbouring date that merely looks equal at some tolerance."""
+    name = "record_dates"
+    P = ID
+
+    def __init__(self):
+        self.activity = {}
+
+    def finish(self, Q, res):
+        if res.aborted:
+            return
+        n = 0
+        for r in _records(Q):
+            if r.record_type != "service":
+                continue
+            n += 1
+            ok = all(isinstance(getattr(r, f), Decimal) for f in ("service_end_date", "exit_date", "time_blocked"))
+            if not ok or r.exit_date - r.service_end_date != r.time_blocked or r.time_blocked < 0:
+                Q.report(self.P, "C20.customer-leaves-at-its-own-end-of-service", "audit",
+                         {"customer": r.id_number, "node": r.node, "end": repr(r.service_end_date), "exit": repr(r.exit_date), "time_blocked": repr(r.time_blocked)})
+                break
+        self.activity["service_records"] = n
+
+
+def history_execute(spec):
+    """The same model at a low precision first, then at a high one in the same process: the second run's dates are still exact sums."""
+    low = dict(spec, exact=10 + spec["seed"] % 3)
+    O.run_case(low, [], obs=False, log=False)
+    from ..sysprop import Activity
+    act, mon, rd = Activity(), ExactSums(spec), RecordDates()
+    res = O.run_case(spec, [act, mon, rd], obs=True, log=True)
+    a = dict(act.a)
+    a.update(mon.activity)
+    return {"violations": list(res.violations), "activity": {k: v for k, v in a.items() if v}, "aborted": res.aborted, "budget_hit": res.budget_hit,
+            "events": res.n_events, "nontrivial": a.get("arrival_events", 0) >= 10, "classes": ["low_then_high_precision"], "score": res.n_events}
+
+
 def floatcmp_execute(spec):
     a = copy.deepcopy(spec)
     a.pop("exact", None)
@@ -276,7 +314,27 @@ def subchecks(tier):
                                  classes=lambda a, spec, res: [k for k in ("episodes_checked",) if a.get(k)], obs=True, log=True,
                                  n={"quick": 3600, "thorough": 20000},
                                  rule="exact run on a 0.1 grid with logged samples: arrival dates and (interrupted) service episodes are exact rational sums of Decimal(str(sample))")
+    wh = {"exact": 1.0, "schedule": 0.3, "priorities": 0.3, "capacity": 0.3, "batching": 0.2, "self_loops": 0.3, "reneging": 0.2, "discipline": 0.2}
+    hist = S.Profile(list(wh), weights=wh, required=("exact",), numeric="grid", max_nodes=2, max_classes=2, plans=("max_time",), horizon=(4.0, 10.0),
+                     budget=500, resumptions=(1, 1), long_digits=0.5, excluded=common.EXCL["C20"])
+
+    def hist_filter(spec):
+        spec = copy.deepcopy(spec)
+        spec["exact"] = 24 + spec["seed"] % 7
+        return spec
+    precision_history = SubCheck("precision_history", lambda spec: history_execute(hist_filter(spec)), strategy=S.netspec(hist),
+                                 n={"quick": 2400, "thorough": 15000}, kind="system",
+                                 rule="16-17 digit constants; the model is run at exact=10..12 and then, in the same process, at exact=24..30 with the exact_sums audit: "
+                                      "what an earlier simulation at another precision left behind must not leak into the dates")
+    wn = {"exact": 1.0, "priorities": 0.3, "capacity": 0.3, "batching": 0.3, "self_loops": 0.3, "discipline": 0.3, "routing_objects": 0.2, "schedule": 0.2}
+    near = S.Profile(list(wn), weights=wn, required=("exact",), numeric="jitter", max_nodes=2, max_classes=2, plans=("max_time",), horizon=(4.0, 12.0),
+                     budget=600, resumptions=(1, 1), load="heavy", excluded=common.EXCL["C20"] + ("floatcmp_precision",))
+    near_ties = system_subcheck("near_ties", near, lambda spec: [ExactSums(spec), RecordDates()],
+                                lambda a, spec, res: a.get("service_records", 0) >= 10, obs=True, log=True, n={"quick": 2400, "thorough": 15000},
+                                rule="grid times with 1e-13-scale jitter in exact mode (k >= 20): dates 1e-13 apart are different dates; exact_sums audit + "
+                                     "every customer leaves at its own end of service")
     return [
+        precision_history, near_ties,
         exact_sums,
         SubCheck("scaled", scaled_execute, strategy=S.netspec(grid), n={"quick": 4800, "thorough": 30000}, kind="metamorphic",
                  rule="exact run on a 0.1 grid vs float run of the x10-scaled (integer) spec"),
